@@ -103,7 +103,7 @@ def run_queue(programs, choose):
     import alpenhorn.scheduler.queue as Q
     from unittest.mock import MagicMock
 
-    S = sched.Sched(choose)
+    S = sched.Sched(choose, max_steps=50000)
     oplog = []  # records in linearisation order
     cur = {}  # thread -> state of its current call
     qref = {}
@@ -247,7 +247,8 @@ def run_queue(programs, choose):
             S.spawn(t, make(t, prog))
         res, stuck = S.run()
         final = (q._total_queued, q._total_inprogress, len(q._deferrals))
-        return oplog, stuck, S.trace, final
+        run_queue.livelock = S.abort
+        return oplog, stuck, ([] if S.abort else S.trace), final
     finally:
         Q.threading, Q.monotonic, Q.sleep, Q.Metric = saved
 
@@ -427,10 +428,50 @@ def gen_plan(rng, with_join):
     return programs, excl_of
 
 
+def gen_script(rng):
+    """one thread issuing put / get / done itself: reaches states a draining consumer never leaves standing
+    (several FIFOs with running items at once, exclusive heads waiting behind them, equal running counts)"""
+    nkeys = rng.randint(2, 4)
+    excl_of = {}
+    prog = []
+    i = 0
+    outstanding = 0
+    for _ in range(rng.randint(8, 22)):
+        r = rng.random()
+        if r < 0.45 or i == 0:
+            i += 1
+            excl_of[i] = rng.random() < 0.3
+            prog.append(("put", i, rng.randint(1, nkeys), excl_of[i], rng.choice([0, 0, 0, 0, 1, 2])))
+        elif r < 0.85:
+            prog.append(("get", rng.choice([1, 1, 3])))
+            outstanding += 1
+        elif outstanding:
+            prog.append(("done",))
+            outstanding -= 1
+        else:
+            prog.append((rng.choice(["qsize", "ipsize", "dsize"]),))
+    programs = {"S": prog}
+    if rng.random() < 0.3:
+        programs["C0"] = [("drain", rng.choice([2, 4]), rng.choice([0, 1]))]
+    return programs, excl_of
+
+
+LIVELOCKS = [0]
+
+
 def one_run(ctx, programs, excl_of, choose, terms, family):
+    if LIVELOCKS[0] >= 3:  # each livelocked run burns its whole step budget; three reports are enough
+        return [], []
     oplog, stuck, trace, final = run_queue(programs, choose)
     sched_choices = [c for c, _ in trace]
     rp = {"family": family, "programs": {t: [list(o) for o in p] for t, p in programs.items()}, "exclusive": {str(k): v for k, v in excl_of.items()}, "schedule": sched_choices}
+    if run_queue.livelock:
+        LIVELOCKS[0] += 1
+        # the threads kept taking steps (50000 of them) without the virtual clock moving on: a consumer spins in get()
+        last = [r["op"] for r in oplog[-6:]]
+        ctx.fail("C11:livelock", f"the queue's threads spin without ever sleeping or finishing (threads {stuck} never returned); last operations {last}", rp)
+        ctx.count(family)
+        return trace, oplog
     incomplete = [r for r in oplog if "res" not in r]
     for r in incomplete:
         if r["op"][0] in ("attempt", "joincheck"):
@@ -529,7 +570,33 @@ def explore_tasks(ctx, n):
         ctx.broke("correspondence", f"Task: model and implementation differ: {tcases[i][:300]}")
 
 
+def _blocked_head(blocked, eligible, busy):
+    """FIFO `blocked`: one running, exclusive head; FIFO `eligible`: one running, ordinary head; FIFO `busy` (optional): two running, ordinary head"""
+    keys = [blocked, eligible] + ([busy] if busy else [])
+    prog, ex = [], {}
+    i = 0
+    for k in keys:
+        i += 1
+        prog.append(("put", i, k, False, 0))
+        ex[i] = False
+    prog += [("get", 1)] * len(keys)
+    if busy:
+        i += 1
+        prog += [("put", i, busy, False, 0), ("get", 1)]
+        ex[i] = False
+    i += 1
+    prog.append(("put", i, blocked, True, 0))
+    ex[i] = True
+    for k in keys[1:]:
+        i += 1
+        prog.append(("put", i, k, False, 0))
+        ex[i] = False
+    prog += [("get", 1), ("get", 1), ("ipsize",), ("done",), ("get", 1), ("qsize",)]
+    return ({"S": prog}, ex)
+
+
 CORPUS = [
+    _blocked_head(1, 2, 3), _blocked_head(2, 1, 3), _blocked_head(1, 2, None), _blocked_head(2, 1, None), _blocked_head(3, 1, 2), _blocked_head(2, 3, 1),
     ({"P": [("put", 1, 1, False, 0), ("put", 2, 1, True, 0), ("put", 3, 1, False, 0)], "C0": [("drain", 4, 1)], "C1": [("drain", 4, 1)]}, {1: False, 2: True, 3: False}),
     ({"P": [("put", 1, 1, False, 2), ("put", 2, 2, False, 0), ("dsize",)], "C0": [("drain", 5, 0)], "J": [("join",), ("qsize",)]}, {1: False, 2: False}),
     ({"P": [("put", 1, 1, True, 0), ("put", 2, 2, False, 0), ("put", 3, 2, False, 0)], "C0": [("drain", 4, 2)], "C1": [("drain", 4, 0)], "C2": [("drain", 12, 1)]}, {1: True, 2: False, 3: False}),
@@ -617,8 +684,8 @@ def explore(ctx):
     # random plans, random schedules
     nplans = 120 if ctx.quick() else 4000
     for p in range(nplans):
-        programs, excl_of = gen_plan(rng, with_join=rng.random() < 0.35)
-        for s in range(6 if ctx.quick() else 10):
+        programs, excl_of = gen_script(rng) if p % 3 == 2 else gen_plan(rng, with_join=rng.random() < 0.35)
+        for s in range((2 if len(programs) == 1 else 6) if ctx.quick() else 10):
             r2 = __import__("random").Random(rng.getrandbits(32))
             trace, oplog = one_run(ctx, programs, excl_of, lambda n: r2.randrange(n), terms, "queue-random")
             if p == 0 and s == 0:
